@@ -254,8 +254,8 @@ class _Asker:
                 msg = ('undecodable', frame)
             self.frames.append(msg)
             self.frame_conn.append(idx)
-            if self.closes and isinstance(msg, m.PeerSearchReply.Request):
-                writer.close()          # what a real client does after reading the reply
+            if self.closes and isinstance(msg, m.PeerSearchReply.Request) and not reader._buffer:
+                writer.close()          # what a real client does after reading the reply (all it was sent so far)
                 return
 
 
@@ -1417,7 +1417,7 @@ class C14(Property):
                 lines += ls
             out = common.run_driver(self.driver_file, lines)
             model = []
-            for ent in layout:
+            for ent, c in zip(layout, cases):
                 if ent is None:
                     model.append(None)
                     continue
